@@ -1,6 +1,7 @@
 """Steps (6)-(7): classify verdicts, print VIOLATION / KNOWN-FINDING lines, write evidence."""
 import json
 import os
+import sys
 import time
 
 import findings
@@ -42,6 +43,22 @@ def count_obligations(unit, mode):
 def conclude(pid, spec, results, tier, seed, wall, kani=(), extra_viol=()):
     known = findings.load()
     undecided = []
+    # modularity audit on the units actually built: every stub contract must be proved in this very check
+    _homes = set()
+    for r in results:
+        uo = getattr(r, 'unit_obj', None)
+        if uo is not None and r.mode in ('F', 'D'):
+            _homes.update(k for k, c in uo.fn_contracts.items() if not c.stub)
+    _ksteps = set(spec.get('kani', [])) | set(spec.get('kani_bounded', []))
+    for r in results:
+        uo = getattr(r, 'unit_obj', None)
+        if uo is None or r.mode not in ('F', 'D'):
+            continue
+        for k, c in uo.fn_contracts.items():
+            if c.stub and k not in _homes and props.KANI_HOMES.get(k) not in _ksteps:
+                msg = 'modularity: the contract of stub %s (unit %s) is proved by no unit or Kani step of this check (run tools/stub_homes.py --write)' % (k, r.unit)
+                if msg not in undecided:
+                    undecided.append(msg)
     violations = []
     known_hit = {}
     c20_sites = []
@@ -145,7 +162,12 @@ def conclude(pid, spec, results, tier, seed, wall, kani=(), extra_viol=()):
                 if key['kind'] == 'overflow':
                     # implicit panic site: a C20 obligation, not one of the other properties
                     c20_sites.append((r.unit, key))
-                    if pid != 'C20':
+                    # In the D-run (requires pre only) an overflow site is the implicit dev-profile panic that C20
+                    # is about. In the F-run the caller has promised <pre && ok>, i.e. an input for which this
+                    # property demands the exact result (or, for checked_* functions, any input at all): an
+                    # arithmetic overflow there is a panic (dev) or a wrapped value (release) where the property
+                    # allows neither, so it is a violation of this property too.
+                    if pid != 'C20' and r.mode != 'F':
                         continue
                 k = findings.match(key, known)
                 if k is not None and pid in k.get('property', []):
@@ -289,15 +311,29 @@ def _frontend_fallback(pid, r, tier, seed):
         if fns is None:
             fns = list(props.UNITS.get(r.unit, {}).get('fallback_keys', [])) + \
                 [k for k, c in uo.fn_contracts.items() if not c.stub] + [k for k, c in uo.fn_contracts.items() if c.stub]
-        seen_ops = set()
+        # one merged search over the distinct (operation, lhs kind, rhs kind) triples of all functions of the
+        # unit; the widest operand kinds first (they are the ones that can overflow)
+        triples = []
+        seen = set()
         for fn in fns:
-            ops = tuple(witness.ops_for(fn))
-            if ops in seen_ops:
-                continue
-            seen_ops.add(ops)
+            for op, lks, rks in witness.ops_for(fn):
+                for lk in lks:
+                    for rk in (rks or (None,)):
+                        if (op, lk, rk) not in seen:
+                            seen.add((op, lk, rk))
+                            triples.append((op, lk, rk, fn))
+        wide = ('d', 'i128', 'u64', 'i64', 'f64', 'f32', 's', None)
+        triples.sort(key=lambda t: (0 if (t[1] in wide and t[2] in wide) else 1))
+        if os.environ.get('VERIF_DEBUG'):
+            print('fallback triples', [(t[0], t[1], t[2]) for t in triples], file=sys.stderr)
+        deadline = time.time() + (300 if tier == 'thorough' else 90)
+        for op, lk, rk, fn in triples:
+            left = deadline - time.time()
+            if left <= 0:
+                break
             key = {'fn': fn, 'kind': 'frontend-fallback', 'clause': None, 'expr': ''}
-            w = witness.search(pid, r, None, key, tier, seed, profile_pair=(('dev', 'release') if pid == 'C20' else None),
-                               budget=(300 if tier == 'thorough' else 60))
+            w = witness._search(pid, r, None, key, tier, seed, profile_pair=(('dev', 'release') if pid == 'C20' else None),
+                                budget=left, combos=[(op, (lk,), ((rk,) if rk else None))])
             if w:
                 d = _runner.Diag()
                 d.message = 'verifier front end rejected the changed code (%s); bounded differential search found a failing input' % str(r.frontend_error)[:200]
@@ -306,9 +342,10 @@ def _frontend_fallback(pid, r, tier, seed):
                 key['witness'] = w
                 res = (d, key)
                 break
-            if len(seen_ops) >= 14:
-                break
     except Exception:
+        import traceback
+        if os.environ.get('VERIF_DEBUG'):
+            traceback.print_exc()
         res = None
     _FALLBACK_DONE[r.unit] = res
     return res
